@@ -49,18 +49,16 @@ def specs(T):
     T.body_contains(S, '_smooth_samples_by_weight',
                     'samples = [(v + bw * np.sqrt(1 - w) * np.random.randn(k), w) for v, w in samples]')
 
-    # --- descriptives
-    mad = _nums(T, D, 'median_absolute_deviation', 2)         # @on_array(0) ; 1.4826
+    # --- descriptives: the numbers come from C19's Gen/DescDefaults (Model/Descriptives.v); the
+    # statements the C17 model mirrors are fingerprinted here
+    T.body_contains(D, 'mean_squared_error', 'if initial:')
+    T.body_contains(D, 'mean_squared_error', 'return (a ** 2).mean()')
     T.body_contains(D, 'median_absolute_deviation', 'mad = np.median(np.abs(a - a_median))')
-    iqr = _nums(T, D, 'interquartile_range', 3)               # @on_array(0) ; 75 ; 25
     T.body_contains(D, 'interquartile_range', 'return np.percentile(a, 75) - np.percentile(a, 25)')
-    mse = _nums(T, D, 'mean_squared_error', 2)                # @on_array(0) ; 2
-    biv = _nums(T, D, 'biweight_midvariance', 13)
     for frag in ('initial = biweight_location(a)', 'w = d / max(c * mad, epsilon)', 'mask = np.abs(w) < 1',
                  'if not w[mask].any():', 'return mad * 1.4826', 'w_ = (w ** 2)[mask]',
                  'return np.sqrt(n * (d_ ** 2 * (1 - w_) ** 4).sum() / ((1 - w_) * (1 - 5 * w_)).sum() ** 2)'):
         T.body_contains(D, 'biweight_midvariance', frag)
-    bil = _nums(T, D, 'biweight_location', 8)
     for frag in ('w = d / max(c * mad, epsilon)', 'mask = np.abs(w) < 1', 'w = (1 - w ** 2) ** 2',
                  'if weightsum == 0:', 'return initial + (d[mask] * w[mask]).sum() / weightsum',
                  'initial = np.median(a)', 'if abs(result - initial) <= epsilon:'):
@@ -101,18 +99,6 @@ def specs(T):
         ('ci_min_k', 'Z', T.compare_with(S, 'confidence_interval_bootstrap', 'k', 'Lt')),
         ('ci_seed', 'Z', ci[8]),
         ('ci_two_lo', 'Q', ci[10]), ('ci_one_hi', 'Q', ci[11]), ('ci_two_hi', 'Q', ci[12]), ('ci_hundred', 'Q', ci[13]),
-        ('mad_single', 'Q', mad[0]), ('mad_scale', 'Q', mad[1]),
-        ('iqr_single', 'Q', iqr[0]), ('iqr_pct_hi', 'Q', iqr[1]), ('iqr_pct_lo', 'Q', iqr[2]),
-        ('mse_single', 'Q', mse[0]),
-        ('bivar_single', 'Q', biv[0]),
-        ('bivar_c', 'Q', T.default(D, 'biweight_midvariance', 'c')),
-        ('bivar_eps', 'Q', T.default(D, 'biweight_midvariance', 'epsilon')),
-        ('bivar_mask_bound', 'Q', biv[3]), ('bivar_mad_scale', 'Q', biv[4]),
-        ('bivar_num_pow', 'Z', biv[8]), ('bivar_five', 'Q', biv[11]),
-        ('biloc_c', 'Q', T.default(D, 'biweight_location', 'c')),
-        ('biloc_eps', 'Q', T.default(D, 'biweight_location', 'epsilon')),
-        ('biloc_max_iter', 'Z', T.default(D, 'biweight_location', 'max_iter')),
-        ('biloc_mask_bound', 'Q', bil[3]),
         ('bt_alpha_default', 'Q', T.default(B, 'do_bintest', 'alpha')),
         ('bt_target_only_default', 'bool', T.default(B, 'do_bintest', 'target_only')),
         ('z_one', 'Q', zp[0]), ('z_two', 'Q', zp[1]),
